@@ -38,6 +38,12 @@ Definition nobs_spec_ok (n : nat) (o : nobs) : bool :=
            list_eqb str_eqb (names_at n (no_post o)) (set_nth_s (names_at n (no_pre o)) c v))
       | Raise e => rnout_eqb (no_res o) (Raise e) && ostr_eqb (no_pre o) (no_post o)
       end
+  | NWriteBad i =>
+      ostr_eqb (no_pre o) (no_post o) &&
+      match col_of n i with
+      | Ok _ => rnout_eqb (no_res o) (Raise TypeError)
+      | Raise e => rnout_eqb (no_res o) (Raise e)
+      end
   | NLookup name =>
       ostr_eqb (no_pre o) (no_post o) &&
       match no_res o with
